@@ -2,8 +2,11 @@
    Only statements, each closed by [exact]; model Link/Keepalive.v, proofs Link/Keepalive{Proofs,Detects,Spurious}.v,
    tie to the source Link/TimingBridge.v (generated tests) + harness/c08.py (correspondence).
    Time is Z; run t0 K ops = the client connected at t0 with keepalive K, driven by ops
-   (Tick dt | Service = one loop() | AppSend | Rx packet-arrives); serviced_within d ops = at every
-   point at most d has passed since the last Service. *)
+   (Tick dt | Service = one loop() | AppSend | Rx packet-arrives | Reconnect = the application calls
+   reconnect(): new socket, CONNECT, _ping_t := 0, both stamps := now, state CONNECTING), so a history may
+   span several connections; every new CONNECT restarts the monitors (no PINGREQ outstanding on a new
+   connection: between CONNECT and CONNACK the only justified keepalive close is "no CONNACK within K of
+   the CONNECT").  serviced_within d ops = at every point at most d has passed since the last Service. *)
 From PahoV Require Import Base.Prelude Link.Keepalive Link.KeepaliveProofs Link.KeepaliveDetects
   Link.KeepaliveSpurious Link.TimingBridge Gen.GenTiming.
 
@@ -127,3 +130,16 @@ Example C08_dead_nonvacuous :
   1004 + 3 + 2 <= now (fst (run 1000 3 dead_ops)) /\
   pm_closed (ping_monitor (snd (run 1000 3 dead_ops))) = Some 1008.
 Proof. vm_compute. repeat split; congruence. Qed.
+
+Definition reconnect_ops : list op :=  (* K = 3, d = 1: timeout, reconnect(), serviced before and after the CONNACK *)
+  [RxConnack; Service; Tick 1; Service; Tick 1; Service; Tick 1; Service;      (* PINGREQ at 1003 *)
+   Tick 1; Service; Tick 1; Service; Tick 1; Service;                          (* keepalive close at 1006 *)
+   Reconnect; Service; Tick 1; Service; RxConnack; Service; Tick 1; Service;   (* new connection, not dropped *)
+   Tick 1; Service; RxPingresp; Service; Tick 1; Service].
+Example C08_reconnect_nonvacuous :
+  serviced_within 1 reconnect_ops = true /\
+  count_k is_own_close (snd (run 1000 3 reconnect_ops)) = 1%nat /\
+  closes_justified 3 (snd (run 1000 3 reconnect_ops)) = true /\
+  sock (fst (run 1000 3 reconnect_ops)) = true /\ is_connected (fst (run 1000 3 reconnect_ops)) = true /\
+  count_k is_txping (snd (run 1000 3 reconnect_ops)) = 2%nat.
+Proof. vm_compute. repeat split; reflexivity. Qed.
